@@ -1005,4 +1005,34 @@ theorem C10_fit_conserves_beyond_u32 {c : Converter Rat} (hc : c.Sound) (ord : M
   · intro v cfg hbig
     exact C10_new_approx_refuses_beyond_u32 _ v _ _ _ hbig
 
+namespace C10Witness
+def cupText : Str := ['c', 'u', 'p']
+/-- `2147483648.5 cup` and `2147483648 cup`: the sum `4294967296.5` is above `2^32` -/
+def bigCups : List (SQuantity Rat) := [num (4294967297/2) (some cupText), num 2147483648 (some cupText)]
+end C10Witness
+
+open C10Witness in
+/-- the statements speak about something (exact table, accuracy 5 %, `max_whole = u32::MAX`):
+    `2.5` becomes `2 1/2` (table branch); `2147483647.75` becomes `2147483647 3/4` (table branch, a large whole; accuracy 1e-11, with 5 % it is rounded);
+    `4294967294.5` becomes the ROUNDED `4294967295 - 0.5` — the only way a whole part equal to `u32::MAX` is ever
+    returned, and it is exact (second disjunct; this is why `whole < u32::MAX` is claimed for the table branch only);
+    `4294967296.5` is refused.  With the bundled converter `2147483648.5 cup + 2147483648 cup`, grouped and fitted,
+    is the plain number `4294967296.5 c` and the volume total of the fitted group is that of the two inputs. -/
+example : newApprox ratTable (5/2 : Rat) (5/100) 4 u32Max = some (.fraction 2 1 2 0) ∧
+    newApprox ratTable (8589934591/4 : Rat) (1/100000000000) 4 u32Max = some (.fraction 2147483647 3 4 0) ∧
+    newApprox ratTable (8589934589/2 : Rat) (5/100) 4 u32Max = some (.fraction 4294967295 0 1 (-1/2)) ∧
+    newApprox ratTable (8589934593/2 : Rat) (5/100) 4 u32Max = none ∧
+    ((GroupedQuantity.fit cB (addAll cB empty bigCups)).1.iter idOrd) =
+      [⟨.number (.regular (8589934593/2)), some ['c']⟩] ∧
+    total cB (.known .volume) ((GroupedQuantity.fit cB (addAll cB empty bigCups)).1.iter idOrd) =
+      total cB (.known .volume) bigCups ∧
+    (total cB (.known .volume) bigCups).1 = (8589934593/2) * (59147059/250000000) := by
+  decide +kernel
+
+/-- the hypotheses of `C10_fit_conserves_beyond_u32` hold for the bundled converter and its volume class -/
+example : Holds C10Witness.cB (.known .volume)
+    (((addAll C10Witness.cB empty C10Witness.bigCups).fit C10Witness.cB).1.iter C10Witness.idOrd) C10Witness.bigCups :=
+  (C10_fit_conserves_beyond_u32 C09_bundled_sound C10Witness.idOrd C10Witness.idOrd_isPerm C10Witness.bigCups (.known .volume)
+    (C10_bundled_linear _ (by decide))).1
+
 end Cook
